@@ -69,7 +69,7 @@ static std::vector<Dry> DRYS;
 // per scenario shared statistics
 struct ScStat { volatile long long runs, fired, leaks, cache_growth, other; };
 static ScStat* SST;
-enum { CNT_EVAL = CNT_USER, CNT_FIRED, CNT_LEAK, CNT_CACHE, CNT_PROBLEMS, CNT_OVF_FIRED, CNT_ABN_FIRED, CNT_ALLOC_FIRED, CNT_NOTFIRED, CNT_TP_LEAK };
+enum { CNT_EVAL = CNT_USER, CNT_FIRED, CNT_LEAK, CNT_CACHE, CNT_PROBLEMS, CNT_OVF_FIRED, CNT_ABN_FIRED, CNT_ALLOC_FIRED, CNT_NOTFIRED, CNT_TP_LEAK, CNT_POST_TIMEOUT };
 
 static const char* mode_name(Mode m) { return m == DRY ? "dry" : m == ALLOC ? "alloc" : m == ABANDON ? "abandon" : "overflow"; }
 static const char* mode_clause(Mode m) { return m == ALLOC ? "oom" : m == ABANDON ? "abandon" : m == OVERFLOW ? "overflow" : "nofault"; }
@@ -492,6 +492,13 @@ int main(int argc, char** argv) {
     if (it.m == ALLOC) trig = "failed_allocation_in_" + fi::ident(site_of_stack(std::vector<void*>(SHARED_BT, SHARED_BT + fi::BT_DEPTH), &chain));
     else if (it.m == ABANDON) trig = "abandoned_in_" + fi::ident(site_of_stack(std::vector<void*>(SHARED_BT + fi::BT_DEPTH, SHARED_BT + 2 * fi::BT_DEPTH), &chain));
     else if (it.m == OVERFLOW) trig = "coefficient_overflow_raised";
+    if (sig == SIGALRM && *phase != 0) {
+      // The step limit expired while the post-checks were computing on the object left behind by the exceptional exit
+      // (its value is unspecified and, with multi-limb data, operations on it can be arbitrarily expensive): no verdict.
+      count(CNT_POST_TIMEOUT);
+      fprintf(stderr, "[c14] step limit reached in the post-checks of %s k=%lu: no verdict\n", s.name.c_str(), k);
+      return;
+    }
     std::string cls = s.site.substr(0, s.site.find("::"));
     std::string engine = engine_of_stack(it.m == ABANDON ? std::vector<void*>(SHARED_BT + fi::BT_DEPTH, SHARED_BT + 2 * fi::BT_DEPTH) : std::vector<void*>(SHARED_BT, SHARED_BT + fi::BT_DEPTH));
     std::string ecls = engine.empty() ? cls : engine.substr(0, engine.find("::"));
@@ -534,7 +541,7 @@ int main(int argc, char** argv) {
     .num("faulted_runs", counter(CNT_EVAL)).num("fault_fired", counter(CNT_FIRED)).num("alloc_faults_fired", counter(CNT_ALLOC_FIRED))
     .num("abandonments_fired", counter(CNT_ABN_FIRED)).num("overflows_fired", counter(CNT_OVF_FIRED)).num("fault_not_reached", counter(CNT_NOTFIRED))
     .num("leaking_runs_confirmed_by_second_run", counter(CNT_LEAK)).num("of_which_inside_one_GMP_or_runtime_library_call(not reported)", counter(CNT_TP_LEAK)).num("positive_balance_not_repeated(cache growth)", counter(CNT_CACHE))
-    .num("usability_problems", counter(CNT_PROBLEMS)).num("dry_run_problems", dry_problems).num("items_skipped_by_deadline", counter(CNT_SKIPPED))
+    .num("post_check_step_limit_reached(no verdict)", counter(CNT_POST_TIMEOUT)).num("usability_problems", counter(CNT_PROBLEMS)).num("dry_run_problems", dry_problems).num("items_skipped_by_deadline", counter(CNT_SKIPPED))
     .dbl("phaseA_s", ta).arr("per_scenario", per);
   J st; st.str("t", "stats").num("states", SC.size()).num("transitions", std::max<long long>(1, counter(CNT_EVAL)))
     .num("traces_validated_against_impl", counter(CNT_EVAL)).num("evaluations", counter(CNT_EVAL)).num("distinct_nontrivial", counter(CNT_FIRED))
